@@ -23,6 +23,7 @@ import (
 	"io/fs"
 	"math/rand"
 	"mime/multipart"
+	"net/url"
 	"os"
 	"path/filepath"
 	"regexp"
@@ -596,11 +597,36 @@ func c19Real(s *c19Sandbox, b, v string) (string, []PropFail, []string, bool) {
 			os.MkdirAll(d, 0o755)
 		}
 	}
-	placeMarker := func(content []byte) {
+	// the expected file gets the marker <mk>M; decoy files <mk>D<i> are put where the name would land if the code
+	// decoded it (percent-decoding, backslashes) before joining — so a read/delete of another file is seen as such
+	decoys := map[string]string{}
+	placeMarker := func(content func(marker, name string) []byte) {
 		prepareParent()
 		if !c19IsDir(ctarget) {
-			os.WriteFile(ctarget, content, 0o644)
+			os.WriteFile(ctarget, content(mk+"M", v), 0o644)
 		}
+		for i, c := range c19Variants(v) {
+			t := filepath.Join(lp, c)
+			if _, err := os.Lstat(t); err == nil || !s.inRoot(t) || !s.inRoot(filepath.Dir(t)) {
+				continue
+			}
+			dm := fmt.Sprintf("%sD%d", mk, i)
+			if os.MkdirAll(filepath.Dir(t), 0o755) == nil && os.WriteFile(t, content(dm, c), 0o644) == nil {
+				decoys[dm] = t
+			}
+		}
+	}
+	plainContent := func(marker, _ string) []byte { return []byte("c19m\n" + marker + "\n") }
+	whichRead := func(got func(marker string) bool) string {
+		for dm, t := range decoys {
+			if got(dm) {
+				return t
+			}
+		}
+		if got(mk + "M") {
+			return ctarget
+		}
+		return ""
 	}
 	targetWasDir := false
 	rejected := false
@@ -631,7 +657,7 @@ func c19Real(s *c19Sandbox, b, v string) (string, []PropFail, []string, bool) {
 		}
 		effects = c19Filter(effects, func(c c19Change) bool { return c19FileContains(c.path, mk) })
 	case "lookupGet":
-		placeMarker([]byte("c19m\n" + mk + "\n"))
+		placeMarker(plainContent)
 		var invoked bool
 		var ctx *fasthttp.RequestCtx
 		run(func() {
@@ -640,12 +666,12 @@ func c19Real(s *c19Sandbox, b, v string) (string, []PropFail, []string, bool) {
 		tags = append(tags, "route:"+s.routeSrc["lookupGet"])
 		if !invoked {
 			rejected = true
-		} else if bytes.Contains(ctx.Response.Body(), []byte(mk)) {
-			readPath = ctarget
+		} else {
+			readPath = whichRead(func(m string) bool { return bytes.Contains(ctx.Response.Body(), []byte(m+"\n")) })
 		}
 		effects = nil
 	case "lookupDelete":
-		placeMarker([]byte(mk))
+		placeMarker(plainContent)
 		var invoked bool
 		run(func() {
 			invoked, _ = s.dispatch("lookupDelete", v, func(c *fasthttp.RequestCtx, _ string) { lookups.DeleteLookupFile(c) })
@@ -656,26 +682,31 @@ func c19Real(s *c19Sandbox, b, v string) (string, []PropFail, []string, bool) {
 		}
 		effects = c19Filter(effects, func(c c19Change) bool { return c.kind == "deleted" })
 	case "inputlookup":
-		content := []byte("c19m\n" + mk + "\n")
-		if strings.HasSuffix(v, ".csv.gz") {
-			var zb bytes.Buffer
-			zw := gzip.NewWriter(&zb)
-			zw.Write(content)
-			zw.Close()
-			content = zb.Bytes()
-		}
-		placeMarker(content)
+		placeMarker(func(marker, name string) []byte {
+			content := plainContent(marker, name)
+			if strings.HasSuffix(name, ".csv.gz") {
+				var zb bytes.Buffer
+				zw := gzip.NewWriter(&zb)
+				zw.Write(content)
+				zw.Close()
+				content = zb.Bytes()
+			}
+			return content
+		})
 		var vals []string
 		var err error
 		run(func() { vals, err = processor.VerifInputLookup(v, "c19m") })
 		if err != nil && strings.Contains(err.Error(), "Only .csv and .csv.gz formats") {
 			rejected = true
 		}
-		for _, x := range vals {
-			if x == mk {
-				readPath = ctarget
+		readPath = whichRead(func(m string) bool {
+			for _, x := range vals {
+				if x == m {
+					return true
+				}
 			}
-		}
+			return false
+		})
 		effects = nil
 	case "aliasFile":
 		var err error
@@ -758,6 +789,27 @@ func c19Real(s *c19Sandbox, b, v string) (string, []PropFail, []string, bool) {
 		tags = append(tags, "exploit-confirmed")
 	}
 	return s.acceptLine(touched), fails, tags, true
+}
+
+// other spellings a name could be turned into by decoding before it is joined
+func c19Variants(v string) []string {
+	seen := map[string]bool{v: true, "": true}
+	var res []string
+	add := func(x string) {
+		if !seen[x] && !strings.ContainsRune(x, 0) {
+			seen[x] = true
+			res = append(res, x)
+		}
+	}
+	if d, err := url.PathUnescape(v); err == nil {
+		add(d)
+	}
+	if d, err := url.QueryUnescape(v); err == nil {
+		add(d)
+	}
+	add(strings.ReplaceAll(v, "\\", "/"))
+	add(strings.TrimSpace(v))
+	return res
 }
 
 func c19Filter(l []c19Change, keep func(c19Change) bool) []c19Change {
